@@ -32,9 +32,38 @@ shuffle (main facet) and with ``split_out>1`` / an explicit ``shuffle_method``
 (facet ``after-shuffle`` in the label).  Whether a shuffle is really part of the
 plan is read from the lowered expression (class names containing "Shuffle").
 
-Calibration
------------
-(see the end of this docstring; filled in from the runs on the unchanged tree)
+Staged comparison ("explain and repair")
+----------------------------------------
+A deviation that can be normalised away is reported under its own label and
+then repaired, and the comparison continues, so that one result can carry
+several findings: object kind -> column order (reorder) -> Series/index names
+(rename) -> a group whose key is NA present on one side only (drop it; only
+when the other keys agree) -> groups duplicated after a shuffle (0.0/-0.0 keys,
+NA keys, unobserved categories) -> unobserved-category groups missing -> rows
+with NA key missing from transform-like results -> length -> dtype (relax) ->
+index -> values.  The label is ``<op family>:<verified input predicate>:<symptom>``;
+a predicate is only used when it was checked on the witness (e.g. "all
+differing groups are present in >= 2 partitions"), otherwise ``other``.
+
+Calibration (false alarms corrected; everything else is in PENDING / findings_proposed/C38.md)
+-----------------------------------------------------------------------------------------
+* symptom classification: the shared ``frames.compare(ordered=False)`` sorts by values first, so a wrong value
+  showed up as an "index" difference; this module sorts by the index (group keys) first and decides index vs
+  values itself, comparing categorical index levels by value.
+* ``split_out=True`` equals ``1`` in Python: ``True in (None, 1)`` made the harness compare row order for
+  ``split_out=True`` and mis-label features; all such tests are now identity tests.
+* ``nunique`` and ``median`` default to ``split_out=True``: row order is compared for them only when
+  ``split_out=1`` is passed explicitly (plus ``sort=True``).
+* ``value_counts``: within a group pandas orders by count with unspecified tie order -> always keyed multiset.
+* generator domain restricted to what the statement names: ``split_every=False`` (not a documented value),
+  ``df.index`` objects as keys and ``agg([... 'nunique' ...])`` are not generated.  cov/corr are generated only
+  for plain column keys without NA and float/int columns: with other keys/columns they produced seven more
+  crash classes (listed in findings_proposed/C38.md section D) that would only multiply labels.
+* named aggregation may repeat a (column, function) pair in pandas; the generator keeps such specs (dask raises:
+  PENDING), they are not an oracle error.
+* NA-group repair is applied only when the non-NA key sets of both sides agree (otherwise a result that lost
+  most rows was mis-labelled "NA group missing").
+* pandas raising (all-NA group for idxmin/idxmax, unobserved categories with idxmin, ...) -> ``ctx.reject``.
 """
 from __future__ import annotations
 
@@ -285,6 +314,7 @@ GRID_OPS = tuple(
     + [({"kind": "single", "fn": "count", "sel": None}, _FULL), ({"kind": "single", "fn": "size", "sel": None}, _FULL),
        ({"kind": "single", "fn": "cov", "sel": ["c", "d"]}, ("split_out", "split_every")),
        ({"kind": "single", "fn": "corr", "sel": ["c", "d"]}, ("split_out", "split_every")),
+       ({"kind": "single", "fn": "cov", "sel": ["d", "g"], "kw": {"ddof": 0}}, ("split_out", "split_every")),
        ({"kind": "agg", "form": "list", "sel": ["c", "d"], "spec": ["sum", "mean", "max"]}, _FULL),
        ({"kind": "agg", "form": "dictlist", "sel": None, "spec": {"c": "sum", "d": ["min", "std"]}}, _FULL),
        ({"kind": "agg", "form": "named", "sel": None, "spec": {"x": ["c", "sum"], "y": ["d", "last"]}}, _FULL),
@@ -1159,3 +1189,137 @@ LEVEL_NOTE = ("trusts pandas as the reference, the shared comparison discipline 
               "key-sorting normal form for keyed-multiset comparison")
 TECHNIQUE = ("runtime monitoring: differential oracle against pandas on every computed groupby result (staged comparison with "
              "explain-and-repair), lowered-plan observation for the after-shuffle facet, complete setting products + random")
+
+# labels observed on the unchanged tree (quick seeds 0,1,2,7,12345 + thorough); see findings_proposed/C38.md
+PENDING = {
+    'agg-any:cat-key&observed=False&shuffle:groups-duplicated':
+        'categorical key, observed=False, shuffle (split_out>1): every output partition re-expands all categories, groups come back several times',
+    'agg-any:key-has-0.0-and-negative-0.0&shuffle:groups-duplicated':
+        'float key holding 0.0 and -0.0 (one pandas group): hash partitioning separates them, the group is reported twice',
+    'agg-any:series-key-named-like-selected-column&shuffle:ValueError@dataframe/dask_expr/_expr.py:_meta':
+        "df.groupby([df.a % 2, 'b']).a.sum(split_out=2): ResetIndex before the shuffle raises 'cannot insert a, already exists'",
+    'agg:after-shuffle:group-spans-partitions:values':
+        'agg with first/last after a shuffle (split_out>1, or any agg containing median): first/last of shuffled chunks',
+    'agg:agg[median]&index-key:KeyError@dataframe/groupby.py:_non_agg_chunk':
+        'agg containing median grouped by the index name: set_index(by) KeyError',
+    'agg:agg[median]&list-selection-not-in-frame-order:columns-order':
+        "g[['d','c']].agg('median'): columns in frame order instead of selection order",
+    'agg:agg[median]&series-groupby&single-function:kind':
+        "SeriesGroupBy.agg('median') returns a DataFrame instead of a Series",
+    'agg:agg[median]&series-groupby:columns':
+        "SeriesGroupBy.agg([.., 'median']) returns columns (col, func) instead of func",
+    'agg:agg[median]&sort=True:KeyError@_expr.py:__new__':
+        "agg containing median with sort=True: ShuffleReduce builds SortValues with wrong operands (KeyError 'options')",
+    'agg:cat-key&observed=False:IndexError@dataframe/groupby.py:_apply_chunk':
+        "several keys incl. a categorical one, observed=False: chunk raises 'cannot do a non-empty take from an empty axes'",
+    'agg:cat-key&observed=False:length':
+        'several keys incl. a categorical one, observed=False, agg with median: set of unobserved combinations differs from pandas',
+    'agg:cat-key&observed=False:values':
+        'same as agg:cat-key&observed=False:length (rows for unobserved combinations differ)',
+    'agg:empty-frame:dtype':
+        'agg on an empty frame: int column comes back float64',
+    'agg:named&same-(column,function)-twice:ValueError@dataframe/groupby.py:_build_agg_args':
+        "agg(x=('d','sum'), y=('d','sum')) raises 'conflicting aggregation functions'; pandas accepts",
+    'cov-corr:NA-in-values:values':
+        'cov/corr with NaN in a column: complete-column sums and sqrt(n_i n_j) instead of pairwise complete observations',
+    'cov-corr:ddof!=1:values':
+        'cov(ddof=) is ignored by _cov_finalizer (always n-1); fix diff in findings_proposed/C38.md',
+    'cov-corr:empty-frame:AttributeError@dataframe/groupby.py:_cov_agg':
+        "cov/corr of an empty frame with 2 partitions: 'Index' object has no attribute 'levels'",
+    'cov-corr:empty-partition:ValueError@dataframe/groupby.py:_cov_agg':
+        "cov/corr, several keys, empty partition: 'multiple levels only valid with MultiIndex'",
+    'cov-corr:empty-partition:ValueError@dataframe/groupby.py:_cov_finalizer':
+        "cov/corr with an empty partition: 'cannot reindex on an axis with duplicate labels'",
+    'cov-corr:list-selection-not-in-frame-order:columns-order':
+        "g[['d','c']].cov(): columns/inner index level in frame order instead of selection order",
+    'cov-corr:meta-of-tuple-chunk:ValueError@dataframe/backends.py:make_meta_object':
+        'cov/corr on a single-partition frame or with split_out>1: meta of the tuple-valued chunk is requested',
+    'cum:NA-in-values:spurious-NA:values':
+        'cumsum/cumprod: a group whose values inside one partition are all NaN poisons the carried total of later partitions',
+    'cum:empty-partition:name':
+        'cumcount with an empty first partition returns a Series named 0 instead of None',
+    'cum:series-key:ValueError@dataframe/groupby.py:_groupby_raise_unaligned':
+        "cumsum/cumprod/cumcount grouped by a derived Series: meta groups the empty frame by the non-empty key ('unaligned')",
+    'ffill-bfill:after-shuffle:values':
+        'ffill/bfill run on rows in shuffled order (no order restoration at all)',
+    'ffill-bfill:empty-frame:dtype':
+        'ffill of a whole empty frame: int column comes back float64',
+    'ffill-bfill:nullable-int-key&dropna=False:TypeError@dataframe/groupby.py:_groupby_slice_transform':
+        "groupby('n', dropna=False).ffill(): slow-path transform with <NA> group name, 'boolean value of NA is ambiguous'",
+    'first-last:after-shuffle:group-spans-partitions:values':
+        'first/last with split_out>1: per-partition results are hash-shuffled, the first/last arriving chunk wins',
+    'idxmin-idxmax:empty-frame:ValueError@utils.py:__call__':
+        'idxmin/idxmax on an empty frame with categorical key observed=False raises during meta/compute',
+    'idxmin-idxmax:group-all-NA-within-a-partition:ValueError@dataframe/groupby.py:_apply_chunk':
+        'idxmin/idxmax: the part of a group inside one partition is all-NA -> pandas 3 raises in the chunk although the group has values',
+    'idxmin-idxmax:group-all-NA-within-a-partition:ValueError@utils.py:__call__':
+        'same mechanism, raised from the aggregate stage',
+    'idxmin-idxmax:group-spans-partitions:values':
+        "IdxMin/IdxMax aggregate with 'first': arg-extreme of the first partition that holds the group",
+    'mean-var-std:list-selection-not-in-frame-order:columns-order':
+        "g[['d','c']].mean()/var()/std(): columns in frame order instead of selection order",
+    'mean-var-std:na-keys&dropna!=False:extra-NA-group':
+        'mean/var/std pass dropna=None explicitly, pandas treats it as False: NA group kept; fix diff in findings_proposed/C38.md',
+    'median:cat-key&observed=False&shuffle:groups-duplicated':
+        'median with categorical key observed=False: every partition re-expands the categories',
+    'median:sort=True&split_out=1:row-order':
+        'median(split_out=1) with sort=True is not sorted',
+    'median:split_every&series-or-index-key:length':
+        'Median.npartitions = npartitions // split_every while the frame keeps its partitions: rows silently lost',
+    'median:split_every>npartitions:ZeroDivisionError@dataframe/dask_expr/_repartition.py:_nsplits':
+        'median(split_every=8) on fewer partitions: npartitions becomes 0',
+    'nunique:cat-key&observed=False:length':
+        'nunique, several keys incl. categorical, observed=False: unobserved combinations missing',
+    'nunique:cat-key&observed=False:unobserved-groups-missing':
+        'nunique aggregates with observed=True: unobserved categories missing',
+    'nunique:na-keys&dropna=False:NA-group-missing':
+        'nunique aggregate stage ignores dropna=False: NA group missing',
+    'nunique:sort=True&split_out=1:row-order':
+        'nunique aggregate stage ignores sort=True',
+    'shift:after-shuffle&index-not-strictly-increasing:values':
+        'shift after the shuffle orders rows by sort_index(): differs from row order unless the index is strictly increasing',
+    'shift:cat-key&observed=False:IndexError@dataframe/groupby.py:_groupby_slice_shift':
+        'shift, categorical key observed=False, partition empty after the shuffle',
+    'shift:cat-key&observed=False:index-names':
+        'shift with categorical key observed=False: index name lost',
+    'shift:empty-frame:index-names':
+        'shift on an empty frame: index name lost',
+    'shift:key-has-0.0-and-negative-0.0&shuffle:values':
+        'rows with key 0.0 and -0.0 land in different partitions: shifted separately',
+    'shift:series-key&duplicate-index-labels:ValueError@dataframe/groupby.py:_groupby_slice_shift':
+        "shift by a Series key on duplicate index labels: sort_index + Series grouper 'cannot reindex on an axis with duplicate labels'",
+    'sum:cat-key&observed=False:IndexError@dataframe/groupby.py:_apply_chunk':
+        'several keys incl. categorical, observed=False: chunk raises on an empty partition',
+    'transform-like:na-keys&dropna!=False:IndexError@dataframe/groupby.py:_groupby_slice_transform':
+        'transform on a shuffled partition that holds NA keys only',
+    'transform-like:na-keys&dropna!=False:ValueError@dataframe/groupby.py:_groupby_slice_transform':
+        "ffill/bfill/transform on a shuffled partition that holds NA keys only: 'No objects to concatenate'",
+    'transform-like:na-keys&dropna!=False:rows-with-NA-key-missing':
+        'transform/ffill: rows whose key is NA are dropped, pandas returns them as NaN',
+    'transform:cat-key&observed=False:index-names':
+        'transform with categorical key observed=False: g.apply on empty partitions adds rows, index name lost',
+    'transform:cat-key&observed=False:length':
+        'transform with categorical key observed=False: extra rows labelled by categories',
+    'transform:empty-frame:index-names':
+        'transform on an empty frame: index name lost',
+    'transform:key-has-0.0-and-negative-0.0&shuffle:values':
+        'rows with key 0.0 and -0.0 land in different partitions: group statistics computed on halves',
+    'value_counts:cat-key&observed=False:IndexError@dataframe/groupby.py:_value_counts':
+        'value_counts with categorical key observed=False on an empty partition',
+    'value_counts:cat-key&observed=False:values':
+        'value_counts with categorical key observed=False: zero-count rows differ',
+    'value_counts:empty-frame:KeyError@base.py:compute':
+        'value_counts of an empty frame with split_out=True',
+    'value_counts:key-has-0.0-and-negative-0.0:length':
+        'value_counts: 0.0 and -0.0 keys merged/split differently from pandas',
+    'value_counts:multi-key&dropna=False:ValueError@dataframe/groupby.py:_value_counts_aggregate':
+        "groupby([..], dropna=False)[col].value_counts(): 'Values not found in passed level' (DESIGN 6 #19)",
+    'value_counts:multi-key&partition-without-non-NA-key:ValueError@dataframe/groupby.py:_groupby_aggregate':
+        'value_counts, several keys, a partition that is empty / holds NA keys only',
+    'value_counts:na-keys&dropna=False:values':
+        'value_counts with NaN key and dropna=False: counts of the NaN group not merged across partitions',
+    'value_counts:partition-without-non-NA-key&split_out>1:KeyError@dataframe/dask_expr/_shuffle.py:operation':
+        '_value_counts returns an index-less empty Series for a partition that is empty / NA-keys only; the shuffle cannot find the key column',
+    'value_counts:partition-without-non-NA-key:AttributeError@dataframe/groupby.py:_value_counts_aggregate':
+        "same root cause without shuffle: 'RangeIndex' object has no attribute 'levels'",
+}
